@@ -4,6 +4,7 @@ mod codec;
 mod common;
 mod craft;
 mod e1;
+mod fd;
 mod hostile;
 mod sim;
 mod wire;
@@ -25,6 +26,7 @@ fn main() {
                 finish(e1::check(&args))
             }
         }
+        "C10" | "C11" => finish(fd::check(&args, &args.prop)),
         "C09" => finish(hostile::check(&args)),
         "C07" => finish(wire::check_c07(&args)),
         "C08" => finish(wire::check_c08(&args)),
